@@ -41,18 +41,25 @@ Theorem C07_roundtrip_refuted :
   ~ (forall t, exists t', reload t = Some t' /\ forall ps, tokens ps (reify t') = tokens ps (reify t)).
 Proof. exact roundtrip_refuted. Qed.
 
-Theorem C07_roundtrip_arith_refuted : changes_on_reload arith_model.
+(* (the hypotheses of the next theorems are facts read from the source on every run: they are true for the
+   code as it stands and turn false when the corresponding defect is repaired) *)
+Theorem C07_roundtrip_arith_refuted : compound_idf = None -> changes_on_reload arith_model.
 Proof. exact reload_changes_arith. Qed.
 
-Theorem C07_roundtrip_item_number_refuted : changes_on_reload list_coll.
+Theorem C07_roundtrip_item_number_refuted : reload_restores_item_number = false -> changes_on_reload list_coll.
 Proof. exact reload_changes_item_number. Qed.
 
 Theorem C07_roundtrip_fixed_model_refuted : changes_on_reload fixed_inside.
 Proof. exact reload_changes_fixed_model. Qed.
 
-Theorem C07_roundtrip_unreadable_refuted :
-  reload log_gaussian_model = None /\ reload negated_model = None /\ reload drawer = None.
-Proof. exact reload_fails. Qed.
+Theorem C07_roundtrip_log_gaussian_refuted : log_gaussian_dict = false -> reload log_gaussian_model = None.
+Proof. exact reload_fails_log_gaussian. Qed.
+
+Theorem C07_roundtrip_drawer_refuted : drawer_json_readable = false -> reload drawer = None.
+Proof. exact reload_fails_drawer. Qed.
+
+Theorem C07_roundtrip_negated_prior_refuted : reload negated_model = None.
+Proof. exact reload_fails_negated. Qed.
 
 (* ---------------- sensitive: local changes are visible in the joined description ---------------- *)
 (* in any context (any object around it, through visible selected keys and sequences), a change whose own
@@ -177,11 +184,19 @@ Theorem C07_sensitive_sharing_refuted :
   ~ (forall ps t t', tokens ps (reify t) = tokens ps (reify t') -> sharing_pattern t = sharing_pattern t').
 Proof. exact sharing_refuted. Qed.
 
-(* names of the caller's variables are visible *)
+(* names of the caller's variables are visible while CompoundPrior declares no identifier fields ... *)
 Theorem C07_stable_names_refuted :
+  compound_idf = None ->
   ~ (forall ps mid c ln rn ln' rn' l r,
        tokens ps (reify (NBinop mid c ln rn l r)) = tokens ps (reify (NBinop mid c ln' rn' l r))).
 Proof. exact names_refuted. Qed.
+
+(* ... and invisible once it does (the repaired code) *)
+Theorem C07_stable_names_when_fields_declared : forall fs : list string,
+  compound_idf = Some fs ->
+  forall ps mid c ln rn ln' rn' l r,
+    tokens ps (reify (NBinop mid c ln rn l r)) = tokens ps (reify (NBinop mid c ln' rn' l r)).
+Proof. exact names_irrelevant. Qed.
 
 (* different compositions with one joined description (no end markers; separator not escaped) *)
 Theorem C07_sensitive_injective_refuted :
